@@ -585,3 +585,43 @@ def rf37(run, unit, entries):
                                   'constant does not denote the value held by the MIR operand' % (fn, tname, m.group(0),
                                                                                                   digits if digits is not None else 'an unbounded/fixed number of', need), line=x['l'])
     return n
+
+
+# ---------------------------------------------------------------------------------------------
+# RF7k: labels in front of endfunc (a function ending in a label) are read back
+# ---------------------------------------------------------------------------------------------
+
+def rf7k(run):
+    rule = 'RF7k'
+    run.rule(rule, 'both readers (MIR_scan_string, MIR_read_with_func): the branch that handles `endfunc` appends the pending labels to '
+                   'the function (the writers print a function\'s trailing labels right before `endfunc`) and raises no error that '
+                   'depends on the number of pending labels')
+    tu = run.tu('mir')
+    n = 0
+    for fn, pend in (('MIR_scan_string', 'label_names'), ('MIR_read_with_func', 'insn_label_string_nums')):
+        f = tu.func(fn)
+        run.functions_analysed.add(('mir', fn))
+        site = None
+        for x in f.walk():
+            if x['k'] == 'IfStmt' and 'strcmp(name, "endfunc")' in F.src(x['c'][0]).replace('strcmp (', 'strcmp('):
+                site = x
+        if site is None:
+            raise F.AnalysisBroken('%s: the endfunc branch was not found' % fn)
+        th = site['c'][1]
+        appends = [y for y in F.walk(th) if y['k'] == 'CallExpr' and y.get('callee') == 'MIR_append_insn'
+                   and any(z['k'] == 'CallExpr' and z.get('callee') in ('to_lab', 'create_label_desc') for z in F.walk(y))]
+        errs = []
+        for y in F.walk(th):
+            if y['k'] == 'IfStmt' and pend in F.src(y['c'][0]):
+                from lib import absint as AI
+                if any(z['k'] == 'CallExpr' and (z.get('callee') == 'scan_error' or AI.is_error_call(z) is not None) for z in F.walk(y['c'][1])):
+                    errs.append(y)
+        ok = bool(appends) and not errs
+        n += 1
+        run.ob(rule, (fn,), ok, {'reader': fn, 'appends pending labels at endfunc': bool(appends), 'rejects pending labels': bool(errs)})
+        if not ok:
+            run.violation(rule, f, 'labels before endfunc in %s' % fn,
+                          '%s %s: a function whose last instruction is a label is printed/written by the writers but cannot be read back'
+                          % (fn, 'raises an error when labels precede endfunc' if errs else 'drops the labels that precede endfunc'),
+                          line=(errs[0]['l'] if errs else site['l']))
+    return n
